@@ -14,7 +14,7 @@ EXPLANATION = ('(R18.1) the per-joint sampler (found by role inside Constraints:
                'on the arc widened by the cell width holds.  (R18.2) in the same cells the gen_range bounds satisfy lo < hi (no panic) when the arc '
                'has positive width.  (R18.3) slot i is sampled from (from[i], to[i]).  The acceptance side (the constraints accept exactly the arc) is C07, whose clauses are re-checked here.  Distribution quality and rand itself are not decided.')
 NOT_DECIDED = 'distribution quality; behaviour of rand itself (assumed to return a value in [lo, hi)); exactness within one cell width of the arc ends'
-ASSUMPTIONS = ['rand::Rng::gen_range(lo..hi) returns a value in [lo, hi) and panics iff lo >= hi']
+ASSUMPTIONS = ['rand::Rng::gen_range(lo..hi) returns a value in [lo, hi) and panics iff lo >= hi', 'rand::Rng::random::<f64>() returns a value in [0, 1)']
 SPLITS = 8
 FILL = (0.25, 1.0)        # (from, to) of the slots that are not under test when random_angles is interpreted as a whole
 
@@ -44,8 +44,16 @@ def h_gen_range(I, st, a, t, b):
     return Fork([Iv(L + i * w, L + (i + 1) * w) for i in range(SPLITS)])
 
 
+def h_random_unit(I, st, a, t, b):
+    """rng.random::<f64>() / rng.gen::<f64>(): a value in [0, 1) (the Standard distribution of floats), split like a range draw"""
+    if 'f64' not in (t['callee'].get('args') or '') and 'f32' not in (t['callee'].get('args') or ''):
+        raise absint.Unsupported('random() of a non-float type')
+    w = 1.0 / SPLITS
+    return Fork([Iv(i * w, (i + 1) * w) for i in range(SPLITS)])
+
+
 HANDLERS = {'rand::thread_rng': h_thread_rng, 'rngs::thread::thread_rng': h_thread_rng, 'thread::thread_rng': h_thread_rng,
-            'Rng::gen_range': h_gen_range, 'Rng::random_range': h_gen_range}
+            'Rng::gen_range': h_gen_range, 'Rng::random_range': h_gen_range, 'Rng::random': h_random_unit, 'Rng::gen': h_random_unit}
 
 
 def find_sampler(ctx):
